@@ -5,6 +5,10 @@ it is given, so a small universe gives an EXHAUSTIVE case split of one operation
   _adt.IdentitySet          universe of 3 objects (two of them ==-equal but distinct): every state x every operation
   _adt.OffsetMapping        2 elements x 2 displacements: every state (2^4 entries, plus empty sub-maps) x get/set/del/contains/
                             iter/len/node_keys/element-level get/set/del; ValueError for a non-mapping; D: symbolic displacements
+                            histories: every one- and two-operation history (get/set/del/contains/get/pop/setdefault by Offset and by
+                            element, write through the handed-out sub-dictionary; 58 operations) from each of the 25 states, compared
+                            after EVERY operation -- also one that raised -- with a literal dictionary of dictionaries through all
+                            read-only observations by Offset and by element: a failing operation leaves no trace
   _adt.LinkedListNode / BlockOrdering   every list of <= 4 blocks x insert_blocks_after / remove_block / add_detached_blocks /
                             adjacent_blocks against a python list; ValueError on a block already ordered
   cache.ReturnEdgeCache     universe of 8 edges (2 sources x {code, proxy} target x {Return, Fallthrough}): every one of the 256
@@ -135,6 +139,256 @@ def offset_mapping_harness(ctx):
     k2 = gtirb.Offset(e1, SymInt(d2))
     hit = k2 in om
     P("OffsetMapping/symbolic-displacements", z3.BoolVal(hit) == (d1 == d2))
+    ctx.cover("enumerated")
+
+
+class _DictOfDicts:
+    """the abstract model of the statement, LITERALLY: a dictionary {element: {displacement: value}}.  Nothing else is state.
+    An operation that raises changes nothing (python's dict semantics); the derived operations get / pop / setdefault are the
+    ones every python mapping has (lookup, else default / KeyError; pop = lookup then delete; setdefault = lookup else store)."""
+    _MISSING = object()
+
+    def __init__(self):
+        self.m = {}
+
+    def lookup(self, key):
+        if isinstance(key, tuple):
+            return self.m[key[0]][key[1]]          # KeyError when the element or the displacement is missing
+        return self.m[key]
+
+    def store(self, key, value):
+        if isinstance(key, tuple):
+            self.m.setdefault(key[0], {})[key[1]] = value
+        elif not isinstance(value, dict):
+            raise ValueError(value)                # "all Offsets of an element" must be a mapping
+        else:
+            self.m[key] = value
+
+    def delete(self, key):
+        if isinstance(key, tuple):
+            del self.m[key[0]][key[1]]
+        else:
+            del self.m[key]
+
+    def contains(self, key):
+        if isinstance(key, tuple):
+            return key[0] in self.m and key[1] in self.m[key[0]]
+        return key in self.m
+
+    def get(self, key, default=None):
+        try:
+            return self.lookup(key)
+        except KeyError:
+            return default
+
+    def pop(self, key, default=_MISSING):
+        try:
+            v = self.lookup(key)
+        except KeyError:
+            if default is self._MISSING:
+                raise
+            return default
+        self.delete(key)
+        return v
+
+    def setdefault(self, key, default):
+        try:
+            return self.lookup(key)
+        except KeyError:
+            self.store(key, default)
+            return default
+
+    def write_through(self, e, d, value):
+        """m[e][d] = value -- the sub-dictionary handed out by element is the live one (class docstring of OffsetMapping)"""
+        self.m[e][d] = value
+
+
+def _om_observe(om, elems, disps):
+    """everything the public read-only API shows, by Offset and by element, in a canonical form (elements named by their index in
+    `elems`; an element outside the universe would show up as -1)"""
+    idx = {id(e): i for i, e in enumerate(elems)}
+    out = {"len": len(om), "bool": bool(om),
+           "iter": sorted((idx.get(id(k.element_id), -1), k.displacement) for k in om),
+           "items": sorted((idx.get(id(k.element_id), -1), k.displacement, v) for k, v in om.items()),
+           "node_keys": sorted(idx.get(id(e), -1) for e in om.node_keys())}
+    for i, e in enumerate(elems):
+        try:
+            got = sorted(om[e].items())
+        except KeyError:
+            got = "KeyError"
+        g = om.get(e)
+        out["elem%d" % i] = (e in om, None if g is None else sorted(g.items()), got)
+        for d in disps:
+            k = gtirb.Offset(e, d)
+            try:
+                got = om[k]
+            except KeyError:
+                got = "KeyError"
+            out["off%d.%d" % (i, d)] = (k in om, om.get(k), got)
+    return out
+
+
+def _model_observe(M, elems, disps):
+    """the same observations computed from the dictionary of dictionaries"""
+    idx = {id(e): i for i, e in enumerate(elems)}
+    m = M.m
+    flat = sorted((idx.get(id(e), -1), d, v) for e, s in m.items() for d, v in s.items())
+    out = {"len": len(flat), "bool": bool(flat),
+           "iter": [(i, d) for i, d, _ in flat],
+           "items": flat,
+           "node_keys": sorted(idx.get(id(e), -1) for e in m)}
+    for i, e in enumerate(elems):
+        s = m.get(e)
+        out["elem%d" % i] = (s is not None, None if s is None else sorted(s.items()), "KeyError" if s is None else sorted(s.items()))
+        for d in disps:
+            has = s is not None and d in s
+            out["off%d.%d" % (i, d)] = (has, s[d] if has else None, s[d] if has else "KeyError")
+    return out
+
+
+def _om_ops(elems, disps):
+    """the operation alphabet: get/set/del/contains and the derived get/pop/setdefault, each by Offset and by element, plus the
+    write through the sub-dictionary handed out for an element.  (i, d) names Offset(elems[i], d); i alone names the element."""
+    ops = []
+    for i in range(len(elems)):
+        for d in disps:
+            for name in ("getitem", "contains", "get", "setitem", "delitem", "pop", "pop-default", "setdefault", "write-through"):
+                ops.append((name, i, d))
+        for name in ("getitem", "contains", "get", "setitem-empty", "setitem-dict", "setitem-non-mapping", "delitem", "pop", "pop-default",
+                     "setdefault-dict", "setdefault-non-mapping"):
+            ops.append((name, i, None))
+    return ops
+
+
+def _om_apply(target, is_model, op, elems, tag):
+    """run one operation on the real OffsetMapping or on the model; -> ('ok', normalised result) | ('raise', exception class name).
+    Sub-dictionary arguments are fresh per side (the two sides must not share mutable objects); a result that IS the argument
+    is reported as such (setdefault / pop must hand back the stored object, not a copy)."""
+    name, i, d = op
+    e = elems[i]
+    if d is None:
+        key = e
+    else:
+        key = (e, d) if is_model else gtirb.Offset(e, d)
+    arg = None
+    val = "w" + tag
+
+    def norm(r):
+        if isinstance(r, dict):
+            return ("the-argument" if r is arg else "sub", sorted(r.items()))
+        return r
+    try:
+        if name == "getitem":
+            r = target.lookup(key) if is_model else target[key]
+        elif name == "contains":
+            r = target.contains(key) if is_model else (key in target)
+        elif name == "get":
+            r = target.get(key)
+        elif name == "setitem":
+            r = target.store(key, val) if is_model else target.__setitem__(key, val)
+        elif name in ("setitem-empty", "setitem-dict", "setitem-non-mapping"):
+            arg = {} if name == "setitem-empty" else {5: val} if name == "setitem-dict" else [1, 2]
+            r = target.store(key, arg) if is_model else target.__setitem__(key, arg)
+        elif name == "delitem":
+            r = target.delete(key) if is_model else target.__delitem__(key)
+        elif name == "pop":
+            r = target.pop(key)
+        elif name == "pop-default":
+            r = target.pop(key, "dflt")
+        elif name == "setdefault":
+            r = target.setdefault(key, val)
+        elif name in ("setdefault-dict", "setdefault-non-mapping"):
+            arg = {7: val} if name == "setdefault-dict" else "not-a-mapping"
+            r = target.setdefault(key, arg)
+        elif name == "write-through":
+            if is_model:
+                r = target.write_through(e, d, val)
+            else:
+                target[e][d] = val
+                r = None
+        else:  # pragma: no cover
+            raise AssertionError(name)
+        return ("ok", norm(r))
+    except (KeyError, ValueError) as ex:
+        return ("raise", type(ex).__name__)
+
+
+def offset_mapping_histories_harness(ctx):
+    """E: every history of ONE and of TWO operations of the alphabet from every state of the universe 2 elements x 2 displacements, where a
+    state says per element: absent / present with no displacement / {0} / {1} / {0,1} (25 states), each state reached in two
+    ways (stored by Offset and by element; emptied sub-dictionaries by deleting the last Offset).  After EVERY operation --
+    in particular after one that raised -- the result (or the exception class) and every public observation by Offset and by
+    element must equal the dictionary of dictionaries.  The second operation makes residue of the first visible that the
+    read-only observations cannot see (e.g. what setdefault by element returns and stores)."""
+    ir, m = create_test_module(gtirb.Module.FileFormat.ELF, gtirb.Module.ISA.X64)
+    _, bi = add_text_section(m, address=0x1000)
+    elems = [add_code_block(bi, b"\x90"), add_code_block(bi, b"\x90")]
+    disps = (0, 1)
+    ops = _om_ops(elems, disps)
+    shapes = (None, (), (0,), (1,), (0, 1))
+    C_RES = "OffsetMapping/histories/result-or-exception-class-equals-the-dictionary-of-dictionaries"
+    C_NOOP = "OffsetMapping/histories/an-operation-that-raises-leaves-no-trace-by-offset-or-by-element"
+    C_OBS = "OffsetMapping/histories/every-observation-by-offset-and-by-element-equals-the-dictionary-of-dictionaries"
+    nhist = 0
+
+    def mk(state, how):
+        om, M = OffsetMapping(), _DictOfDicts()
+        for e, shape in zip(elems, state):
+            if shape is None:
+                continue
+            if how == "by-element":
+                om[e] = {d: "v%d" % d for d in shape}
+                M.m[e] = {d: "v%d" % d for d in shape}
+            else:
+                for d in shape or (9,):
+                    om[gtirb.Offset(e, d)] = "v%d" % d
+                    M.m.setdefault(e, {})[d] = "v%d" % d
+                if not shape:
+                    del om[gtirb.Offset(e, 9)]
+                    del M.m[e][9]
+        return om, M
+
+    def step(om, M, op, tag, bad, hist, observe=True):
+        r_real = _om_apply(om, False, op, elems, tag)
+        r_model = _om_apply(M, True, op, elems, tag)       # a raising operation leaves the model unchanged (dict semantics)
+        if r_real != r_model:
+            bad.setdefault(C_RES, "%s: %s, the model %s" % (hist, r_real, r_model))
+        if not observe:
+            return True
+        o_real, o_model = _om_observe(om, elems, disps), _model_observe(M, elems, disps)
+        if o_real != o_model:
+            diff = sorted(k for k in o_model if o_real.get(k) != o_model[k])
+            which = C_NOOP if r_model[0] == "raise" else C_OBS
+            bad.setdefault(which, "%s <-- here: differs in %s: %s, the model %s" % (hist, diff[0], o_real[diff[0]], o_model[diff[0]]))
+            return False
+        return True
+
+    for state in itertools.product(shapes, repeat=2):
+        for how in ("by-offset", "by-element"):
+            om0, M0 = mk(state, how)
+            ctx.prove("OffsetMapping/histories/initial-state-equals-the-model", z3.BoolVal(_om_observe(om0, elems, disps) == _model_observe(M0, elems, disps)),
+                      note="%s %s" % (state, how))
+            bad, nbad = {}, {}
+            for op1 in ops:
+                bad1 = {}
+                om, M = mk(state, how)
+                h1 = "state %s (%s); %s" % (state, how, op1)
+                nhist += 1
+                # two-operation histories from one construction of the state only: the other construction differs in operations
+                # (store / delete by Offset vs store by element) that are first operations of the alphabet anyway
+                if step(om, M, op1, "1", bad1, h1) and how == "by-offset":
+                    for op2 in ops:
+                        om, M = mk(state, how)
+                        nhist += 1
+                        step(om, M, op1, "1", {}, h1, observe=False)
+                        step(om, M, op2, "2", bad1, "%s; %s" % (h1, op2))
+                for c, why in bad1.items():
+                    bad.setdefault(c, why)
+                    nbad[c] = nbad.get(c, 0) + 1
+            for c in (C_RES, C_NOOP, C_OBS):
+                ctx.prove(c, z3.BoolVal(c not in bad), note="%s [first of %d first operations with a failing history]" % (bad[c], nbad[c]) if c in bad else "")
+    ctx.prove("OffsetMapping/histories/enumeration-is-not-vacuous", z3.BoolVal(len(ops) == 58 and nhist >= 25 * 2 * len(ops)),
+              note="%d histories" % nhist)
     ctx.cover("enumerated")
 
 
@@ -403,6 +657,8 @@ def reference_cache_bounded(tier, seed):
 def jobs(tier="quick", seed=0):
     yield Job("C20/IdentitySet", identity_set_harness, kind="E", func="gtirb_rewriting._adt.identity_set:IdentitySet", expect_cover=("enumerated",))
     yield Job("C20/OffsetMapping", offset_mapping_harness, setup=lambda: shims.installed([]), kind="E", func="gtirb_rewriting._adt.offset_mapping:OffsetMapping", expect_cover=("enumerated",))
+    yield Job("C20/OffsetMapping-histories", offset_mapping_histories_harness, setup=lambda: shims.installed([]), kind="E", func="gtirb_rewriting._adt.offset_mapping:OffsetMapping",
+              expect_cover=("enumerated",))
     yield Job("C20/BlockOrdering", block_ordering_harness, kind="E", func="gtirb_rewriting._adt.block_ordering:BlockOrdering + linked_list:LinkedListNode", expect_cover=("enumerated",))
     yield Job("C20/ReturnEdgeCache", return_cache_harness, kind="E", func="gtirb_rewriting._modify.cache:ReturnEdgeCache", expect_cover=("enumerated",))
     yield Job("C20/make_return_cache", make_return_cache_harness, kind="E", func="gtirb_rewriting._modify.cache:make_return_cache", expect_cover=("enumerated",))
